@@ -113,7 +113,11 @@ def rule(rid, title):
 def premise(ctx, module, rule_ids, why):
     """Re-run rules of another property whose conclusion this property's argument rests on; their violations are reported here too."""
     import importlib
-    importlib.import_module(f"rules.{module}")
+    mod = importlib.import_module(f"rules.{module}")
+    if ctx.config not in (None, "ws") and ctx.config not in getattr(mod, "THOROUGH_CONFIGS", []):
+        # the other property is not analysed in this build configuration (its crates are not part of it): nothing to re-run here
+        ctx.note(f"premise {module} {sorted(rule_ids)} not applicable in configuration {ctx.config}")
+        return
     c = Ctx(module, ctx.tier, config=ctx.config, shadow=True)
     c.P = ctx.P
     ran = 0
